@@ -153,14 +153,16 @@ func (h *Transport) Unmarshal(v base.HeaderValue) error {
 		return fmt.Errorf("value provided multiple times (%v)", v)
 	}
 
-	kvs, err := keyValParse(v[0], ';')
+	kvs, err := keyValParseOrdered(v[0], ';')
 	if err != nil {
 		return err
 	}
 
 	profileFound := false
 
-	for k, rv := range kvs {
+	for _, kv := range kvs {
+		k, rv := kv.key, kv.value
+
 		v := rv
 
 		switch k {
